@@ -174,6 +174,7 @@ C08_Returns_A == Acting /\ ~Damaged
 C08_Returns_C ==
     /\ E.res.kind \in {"ok", "err"}
     /\ HasObs(E.obs) \/ "closed" \in DOMAIN E.obs
+    /\ (HasObs(E.obs) => E.obs.rd0 # "panic")       \* reading the default root returns (value or error) whichever root is in use
     /\ ("fresh" \in DOMAIN E.x => E.x.fresh.open # "panic")
     /\ ("crash" \in DOMAIN E.x => \A s \in Rng(E.x.crash) : s.fresh.open # "panic")
 
